@@ -194,6 +194,11 @@ def simplify(desc):
 # ------------------------------------------------------------------ enumeration tier
 
 SIZE_PAIRS = {'uu': (10, 10), 'su': (230, 10), 'us': (10, 230), 'ss': (230, 230)}
+# both sides of the first segmentation boundary at max-APDU 50 (service data 46 fits unsegmented, 47 does not) and of the 2/3-segment boundary
+_B = txngen.payload_len_for_service_len
+BOUNDARY_PAIRS = {'b46-46': (_B(46), _B(46)), 'b47-46': (_B(47), _B(46)), 'b46-47': (_B(46), _B(47)), 'b47-47': (_B(47), _B(47)),
+                  'b88-89': (_B(88), _B(89)), 'b89-88': (_B(89), _B(88))}
+SIZE_PAIRS.update(BOUNDARY_PAIRS)
 SEG_COMBOS = {  # (client, server) segmentation support
     'both': ('segmentedBoth', 'segmentedBoth'),
     'tx-rx': ('segmentedTransmit', 'segmentedReceive'),
@@ -361,13 +366,15 @@ def run_unit(unit):
 def cells(tier):
     out = []
     if tier == 'quick':
-        grid = [(sz, win, ret, 'both', 'direct') for sz in SIZE_PAIRS for win in (1, 4) for ret in (0, 3)]
+        grid = [(sz, win, ret, 'both', 'direct') for sz in ('uu', 'su', 'us', 'ss') for win in (1, 4) for ret in (0, 3)]
+        grid += [(sz, 2, 1, 'both', 'direct') for sz in BOUNDARY_PAIRS]
         grid += [('ss', 2, 1, 'tx-rx', 'direct'), ('ss', 2, 1, 'rx-tx', 'direct'), ('uu', 2, 1, 'none', 'iocb'),
                  ('ss', 2, 3, 'both', 'iocb')]
     else:
-        grid = [(sz, win, ret, sg, 'direct') for sz in SIZE_PAIRS for win in (1, 2, 4, 8) for ret in (0, 1, 3)
+        grid = [(sz, win, ret, sg, 'direct') for sz in ('uu', 'su', 'us', 'ss') for win in (1, 2, 4, 8) for ret in (0, 1, 3)
                 for sg in SEG_COMBOS]
-        grid += [(sz, win, 1, 'both', 'iocb') for sz in SIZE_PAIRS for win in (1, 2, 4, 8)]
+        grid += [(sz, win, ret, 'both', 'direct') for sz in BOUNDARY_PAIRS for win in (1, 3) for ret in (0, 2)]
+        grid += [(sz, win, 1, 'both', 'iocb') for sz in ('uu', 'su', 'us', 'ss') for win in (1, 2, 4, 8)]
     for (sz, win, ret, sg, mode) in grid:
         out.append({'size': sz, 'win': win, 'retries': ret, 'seg': sg, 'mode': mode})
     return out
@@ -376,7 +383,7 @@ def cells(tier):
 def units(tier, seed):
     us = []
     for i, cell in enumerate(cells(tier)):
-        pairs = (tier == 'thorough') or (cell['win'] == 4 and cell['retries'] == 0 and cell['size'] in ('su', 'us'))
+        pairs = (tier == 'thorough' and cell['size'] in ('uu', 'su', 'us', 'ss')) or (cell['win'] == 4 and cell['retries'] == 0 and cell['size'] in ('su', 'us'))
         us.append({'kind': 'cell', 'must': True, 'seed': seed, 'cell': cell, 'desc': cell_desc(seed, cell), 'pairs': pairs})
     n_units = 4000 if tier == 'thorough' else 400
     per = 60
